@@ -20,6 +20,7 @@ func ruleC20(prog *Program, rep *Report) {
 		return
 	}
 	info := pk.TypesInfo
+	ruleNumFamily(prog, rep, 1, "asm")
 	// E-recover
 	rep.Rules = append(rep.Rules, "E-recover: asm.Plan.Execute begins with a deferred function literal that calls recover() and assigns its named error result; no go statement, os.Exit or log.Fatal* occurs in package asm")
 	efd, _ := prog.FuncDecl(Method(pk, "Plan", "Execute"))
